@@ -139,6 +139,7 @@ def replay_history(job):
             elif op == 'removecols':
                 cols = [c for c in cols if c['f'] != st['f']]
                 t.remove_columns([st['f']])
+                frozen = False
             elif op == 'setlimits':
                 limits = st['limits']
                 t.fmt = ';' + lim_str(limits)
